@@ -97,7 +97,7 @@ func genServer(g *genCtx) {
 		}
 		grpcOn := r.intn(2)
 		// bundles=2: the same middleware list (one slice) is bundled twice and the second bundle is used
-		g.op("serve http=%s https=%s mw=%s grpc=%d bundles=%d", httpR, httpsR, mw, grpcOn, 1+t%2)
+		g.op("serve http=%s https=%s mw=%s grpc=%d bundles=%d gens=%d", httpR, httpsR, mw, grpcOn, 1+t%2, 1+(t/2)%3)
 		// every registered route once, plus a grid of other method/path combinations
 		reqs := []string{}
 		for _, spec := range []struct{ l, r string }{{"http", httpR}, {"https", httpsR}} {
@@ -157,7 +157,7 @@ func genServer(g *genCtx) {
 		for i := 1; i <= 5; i++ {
 			routes = append(routes, fmt.Sprintf("%s:/m%d:%d", []string{"POST", "PUT"}[r.intn(2)], i, i))
 		}
-		g.op("serve http=%s https=off mw=%s grpc=0 bundles=%d", strings.Join(routes, ","), strings.Join(names, ","), 1+t%2)
+		g.op("serve http=%s https=off mw=%s grpc=0 bundles=%d gens=%d", strings.Join(routes, ","), strings.Join(names, ","), 1+t%2, 1+(t/2)%2)
 		for rep := 0; rep < 3; rep++ {
 			for _, rt := range routes {
 				f := strings.Split(rt, ":")
@@ -204,6 +204,9 @@ func genLifecycle(g *genCtx) {
 				g.newCase("kind=lifecycle")
 				g.op("scenario listeners=%s inflight=%d ctx=retry timing=ready", ls, 1+len(ls)%3)
 			}
+			// the application's running context (the one given to NewServer) is cancelled, then Stop gets an ample context
+			g.newCase("kind=lifecycle")
+			g.op("scenario listeners=%s inflight=%d ctx=runcancel timing=ready", ls, 1+len(ls)%2)
 		}
 	}
 }
@@ -306,6 +309,12 @@ func (h *gateHello) SayHello(ctx context.Context, req *proto.HelloRequest) (*pro
 
 // tightCtx: the Stop context is 3 s and the in-flight request is released 1.8 s after Stop was called.
 var tightCtx bool
+
+// buildGens: how many servers are built from the configuration (the last one is used).
+var buildGens = 1
+
+// runCancel: the running context given to NewServer is cancelled before Stop (ample context) is called.
+var runCancel bool
 
 // retryCtx: a first Stop with an expired context precedes the Stop (ample context) the scenario observes.
 var retryCtx bool
@@ -483,7 +492,16 @@ func startServer(httpR, httpsR, mw string, grpcOn bool, blockRoutes bool) (*live
 	ls.wg = &sync.WaitGroup{}
 	runCtx, cancel := context.WithCancel(context.Background())
 	ls.cancelRun = cancel
-	s, err := server.NewServer(b.Build(), runCtx, ls.wg)
+	cfg := b.Build()
+	if buildGens > 1 {
+		// the configuration has been used before: earlier servers were built from it (and never started, or long stopped)
+		for i := 1; i < buildGens; i++ {
+			if _, err := server.NewServer(cfg, context.Background(), &sync.WaitGroup{}); err != nil {
+				return nil, err
+			}
+		}
+	}
+	s, err := server.NewServer(cfg, runCtx, ls.wg)
 	if err != nil {
 		return nil, err
 	}
@@ -652,6 +670,10 @@ func execServer(x *execCtx) {
 				cleanup()
 				var err error
 				bundleTwice = f["bundles"] == "2"
+				buildGens = 1
+				if f["gens"] != "" {
+					buildGens = atoi(f["gens"])
+				}
 				ls, err = startServer(f["http"], f["https"], f["mw"], f["grpc"] == "1", false)
 				if err != nil {
 					return "error=" + err.Error()
@@ -699,7 +721,8 @@ func execServer(x *execCtx) {
 			case "scenario":
 				tightCtx = f["ctx"] == "tight"
 				retryCtx = f["ctx"] == "retry"
-				return runScenario(f["listeners"], atoi(f["inflight"]), f["ctx"] == "ample" || tightCtx || retryCtx, f["timing"] == "ready")
+				runCancel = f["ctx"] == "runcancel"
+				return runScenario(f["listeners"], atoi(f["inflight"]), f["ctx"] == "ample" || tightCtx || retryCtx || runCancel, f["timing"] == "ready")
 			}
 			return "bad-op"
 		})
@@ -776,6 +799,10 @@ func runScenario(listeners string, inflight int, ample, ready bool) string {
 			case <-time.After(5 * time.Second):
 			}
 		}
+	}
+	if runCancel {
+		ls.cancelRun()
+		time.Sleep(5 * time.Millisecond)
 	}
 	if retryCtx {
 		ls.stop(false) // gives up at once; what it returns is the business of the expired-context scenarios
